@@ -239,12 +239,20 @@ def main():
                 box["exc"] = e
         th = threading.Thread(target=run, daemon=True)
         th.start()
-        th.join(20)
+        th.join(6 if w["obligation"].endswith("blocked-only-when") else 20)
         if th.is_alive():
             out["outcome"] = "hang"
             out["detail"] = "real function still running after 20 s"
             name = w["obligation"]
             out["confirmed"] = True if ("variant" in name or "never-blocks" in name or "post" in name) else None
+            if name.endswith("blocked-only-when") and c.when_blocked is not None:
+                try:
+                    ok = bool(call_spec(c.when_blocked, dict(ns, old=old, where="(native: still waiting)")))
+                    out["confirmed"] = not ok
+                    out["detail"] = "real call is waiting; when_blocked evaluated natively -> %r" % ok
+                except Exception as e:  # noqa
+                    out["confirmed"] = None
+                    out["detail"] = "when_blocked not evaluable natively: %r" % (e,)
             print(json.dumps(out))
             sys.stdout.flush()
             os._exit(0)
